@@ -105,7 +105,7 @@ pub fn special(run: &mut Run, rng: &mut Rng, thorough: bool) {
                 for m in super::mutations(&out, rng, 4) { run_one(run, &mut p, false, &m, true); }
             }
             // genuine SRTCP
-            let mut c = { let p = super::rtp::gen_rtcp_packet(rng); crate::catch(move || marshal_rtcp_packets(&[p]).unwrap_or_default()).unwrap_or_default() };
+            let mut c = { let p = super::rtp::gen_rtcp_packet(rng); super::catch_ack(move || marshal_rtcp_packets(&[p]).unwrap_or_default()).unwrap_or_default() };
             // pin the sender SSRC to the same small set as the RTP side: the per-call oracle is about one packet, the
             // growth of the context table with new authenticated SSRCs is measured separately (`srtpfloodauth`)
             if c.len() >= 8 { let ss = 0x1000u32 + rng.below(3) as u32; c[4..8].copy_from_slice(&ss.to_be_bytes()); }
